@@ -58,8 +58,8 @@ Definition tab_c20 : list (string * (list Qc -> val)) := [
   ("ser_m4", run1 (@rd_m4 Qc) (fun v => oe (ser_m4 v)));
   ("ser_quat", run1 rq (fun q => oe (ser_quat q)));
   ("ser_rad", run1 rs (fun a => oe (ser_rad a))); ("ser_deg", run1 rs (fun a => oe (ser_deg a)));
-  ("ser_euler_rad", run1 rd_euler (fun e => oe (ser_euler (@ser_rad Qc) e)));
-  ("ser_euler_deg", run1 rd_euler (fun e => oe (ser_euler (@ser_deg Qc) e)));
+  ("ser_euler_rad", run1 (@rd_euler Qc) (fun e => oe (ser_euler (@ser_rad Qc) e)));
+  ("ser_euler_deg", run1 (@rd_euler Qc) (fun e => oe (ser_euler (@ser_deg Qc) e)));
   ("ser_basis2", run1 (@rd_m2 Qc) (fun b => oe (ser_basis2 b))); ("ser_basis3", run1 (@rd_m3 Qc) (fun b => oe (ser_basis3 b)));
   ("ser_dq", run1 (rd_dec rq (@rd_v3 Qc)) (fun d => oe (ser_dec (@ser_quat Qc) (@ser_v3 Qc) d)));
   ("ser_db3", run1 (rd_dec (@rd_m3 Qc) (@rd_v3 Qc)) (fun d => oe (ser_dec (@ser_basis3 Qc) (@ser_v3 Qc) d)));
